@@ -40,6 +40,8 @@ type c14Shared struct {
 	w5    *spg.WLRecipe  // a list of more than 4096 words with one uncapitalisable word near the end
 	c5    spg.CharRecipe // overlapping required sets (the inclusion-exclusion count)
 	c6    spg.CharRecipe // another recipe with overlapping required sets
+	c7    spg.CharRecipe // custom required sets listed out of lexical order, exclusions of both kinds
+	sfEx  spg.SFFunction // constructed separator function whose recipe has exclusions
 }
 
 // needBigList is set while a scenario that uses the 5001-word list runs
@@ -68,6 +70,8 @@ func newC14Shared() *c14Shared {
 	x.sf2 = spg.NewSFFunction(spg.CharRecipe{Length: 2, AllowChars: "xyz"})
 	x.c5 = spg.CharRecipe{Length: 3, AllowChars: "abcd", RequireSets: []string{"ab", "bc"}}
 	x.c6 = spg.CharRecipe{Length: 4, Allow: spg.Digits, RequireSets: []string{"12", "23", "31"}}
+	x.c7 = spg.CharRecipe{Length: 3, Allow: spg.Lowers, RequireSets: []string{"zy", "ab", "mn"}, Exclude: spg.Ambiguous, ExcludeChars: "q"}
+	x.sfEx = spg.NewSFFunction(spg.CharRecipe{Length: 1, Allow: spg.Digits | spg.Symbols, Exclude: spg.Ambiguous, ExcludeChars: "9"})
 	x.w6 = spg.NewWLRecipe(2, wl)
 	x.w6.SeparatorFunc = spg.SFDigits2
 	if needBigList {
@@ -93,7 +97,7 @@ func newC14Shared() *c14Shared {
 }
 
 func (x *c14Shared) snapshot() string {
-	return fmt.Sprintf("%+v|%q|%q|%q|%d|%d %s %q %v|%d %s %q", spg.CharRecipe{Length: x.c.Length, Allow: x.c.Allow, Require: x.c.Require, Exclude: x.c.Exclude, AllowChars: x.c.AllowChars, ExcludeChars: x.c.ExcludeChars},
+	return fmt.Sprintf("%q|", x.c7.RequireSets) + fmt.Sprintf("%+v|%q|%q|%q|%d|%d %s %q %v|%d %s %q", spg.CharRecipe{Length: x.c.Length, Allow: x.c.Allow, Require: x.c.Require, Exclude: x.c.Exclude, AllowChars: x.c.AllowChars, ExcludeChars: x.c.ExcludeChars},
 		x.c.RequireSets, x.req, x.words, spg.VerifUncapitalizable(x.wl), x.w.Length, x.w.Capitalize, x.w.SeparatorChar, x.w.SeparatorFunc == nil, x.w2.Length, x.w2.Capitalize, x.w2.SeparatorChar) + strings.Join(spg.VerifWords(x.wl), ",")
 }
 
@@ -131,6 +135,34 @@ var c14Calls = map[string]c14Call{
 	"c5.SuccessProbability": {"c5.SuccessProbability", func(x *c14Shared) string { return fmt.Sprintf("%08x", math.Float32bits(x.c5.SuccessProbability())) }},
 	"c6.Entropy":            {"c6.Entropy", func(x *c14Shared) string { return fmt.Sprintf("%08x", math.Float32bits(x.c6.Entropy())) }},
 	"c6.Generate":           {"c6.Generate", func(x *c14Shared) string { return genStr(x.c6.Generate) }},
+	"c7.Generate":           {"c7.Generate", func(x *c14Shared) string { return genStr(x.c7.Generate) }},
+	"c7.Entropy":            {"c7.Entropy", func(x *c14Shared) string { return fmt.Sprintf("%08x", math.Float32bits(x.c7.Entropy())) }},
+	"c7.Alphabet":           {"c7.Alphabet", func(x *c14Shared) string { return x.c7.Alphabet() }},
+	"c7.SuccessProbability": {"c7.SuccessProbability", func(x *c14Shared) string { return fmt.Sprintf("%08x", math.Float32bits(x.c7.SuccessProbability())) }},
+	"sfEx()": {"sfEx()", func(x *c14Shared) string {
+		s, e := x.sfEx()
+		return fmt.Sprintf("%q %08x", s, math.Float32bits(float32(e)))
+	}},
+	"SFDigitsNoAmbiguous1()": {"SFDigitsNoAmbiguous1()", func(x *c14Shared) string {
+		s, e := spg.SFDigitsNoAmbiguous1()
+		return fmt.Sprintf("%q %08x", s, math.Float32bits(float32(e)))
+	}},
+	"SFDigitsNoAmbiguous2()": {"SFDigitsNoAmbiguous2()", func(x *c14Shared) string {
+		s, e := spg.SFDigitsNoAmbiguous2()
+		return fmt.Sprintf("%q %08x", s, math.Float32bits(float32(e)))
+	}},
+	"SFSymbols()": {"SFSymbols()", func(x *c14Shared) string {
+		s, e := spg.SFSymbols()
+		return fmt.Sprintf("%q %08x", s, math.Float32bits(float32(e)))
+	}},
+	"SFDigitsSymbols()": {"SFDigitsSymbols()", func(x *c14Shared) string {
+		s, e := spg.SFDigitsSymbols()
+		return fmt.Sprintf("%q %08x", s, math.Float32bits(float32(e)))
+	}},
+	"SFNone()": {"SFNone()", func(x *c14Shared) string {
+		s, e := spg.SFNone()
+		return fmt.Sprintf("%q %08x", s, math.Float32bits(float32(e)))
+	}},
 	"sf2()": {"sf2()", func(x *c14Shared) string {
 		s, e := x.sf2()
 		return fmt.Sprintf("%q %08x", s, math.Float32bits(float32(e)))
@@ -190,6 +222,8 @@ var c14Scenarios = []c14Scenario{
 	{"5001-word list: w5.Generate||w5.Entropy||w5.Generate", [][]string{{"w5.Generate"}, {"w5.Entropy"}, {"w5.Generate"}}, 0},
 	{Name: "overlapping required sets: c5.Entropy||c5.SuccessProbability||c5.Generate", Threads: [][]string{{"c5.Entropy"}, {"c5.SuccessProbability"}, {"c5.Generate"}}},
 	{Name: "overlapping required sets, two recipes: c5.Entropy||c6.Entropy||c6.Generate", Threads: [][]string{{"c5.Entropy"}, {"c6.Entropy"}, {"c6.Generate"}}},
+	{Name: "unsorted custom required sets: c7.Generate||c7.Entropy||c7.Alphabet", Threads: [][]string{{"c7.Generate"}, {"c7.Entropy"}, {"c7.Alphabet"}}},
+	{Name: "separator functions with exclusions: SFDigitsNoAmbiguous1()||SFDigitsNoAmbiguous1()||sfEx()", Threads: [][]string{{"SFDigitsNoAmbiguous1()"}, {"SFDigitsNoAmbiguous1()"}, {"sfEx()"}}},
 	{Name: "MaxTrials=10: w2.Generate||c.Generate||SFDigits1()", Threads: [][]string{{"w2.Generate"}, {"c.Generate"}, {"SFDigits1()"}}, MaxTrials: 10},
 	{Name: "MaxTrials=10: sf()||c2.Generate", Threads: [][]string{{"sf()"}, {"c2.Generate"}}, MaxTrials: 10},
 	{Name: "MaxTrials=1000: w3.Generate||c.Entropy||c.Generate", Threads: [][]string{{"w3.Generate"}, {"c.Entropy"}, {"c.Generate"}}, MaxTrials: 1000},
